@@ -49,6 +49,7 @@ type World struct {
 	strLits  map[string]bool
 
 	protectedFields map[string]bool
+	immutableFields map[string]bool // protected fields that are only written during construction
 	allFuncs        map[string]*ssa.Function
 	opqSig          map[string]string
 	opaques         map[string]*opaqueDef
@@ -199,6 +200,7 @@ func LoadWorld(repo string, specDirs []string) (*World, error) {
 		w.protectedFields["F:tree.node."+f] = true
 	}
 	w.protectedFields["F:tree.Tree.methods"] = true
+	w.immutableFields = map[string]bool{"F:tree.node.pattern": true}
 	return w, nil
 }
 
